@@ -138,6 +138,23 @@ def run(ctx):
         terms.append("(%s, %s, %s)" % (clist([cnats(row) for row in g]), cnats(f), cnats(out)))
         meta.append((g, f, out))
     ctx.sample(dict(tl=cases[3][0], finals=cases[3][1], impl=dec(res[3]["ok"]) if "ok" in res[3] else res[3]))
+    # the same list searched twice, with a transition added IN PLACE to one of its rows in between: the second answer is about
+    # the graph as it is then
+    seq = []
+    for g, f in cases[:80 if ctx.quick else 800]:
+        if len(g) >= 2:
+            u, v = ctx.rng.randrange(len(g)), ctx.rng.randrange(len(g))
+            seq.append((g, f, u, v))
+    rs = impl.run_cases([dict(op="rdfs_seq", tl=enc(as_tl(g)), finals=enc(f), edit=enc([u, ("added", v)])) for g, f, u, v in seq],
+                        limit=20, tag="c07s")
+    for (g, f, u, v), r in zip(seq, rs):
+        ctx.evaluations += 1
+        ctx.count("searched again after an in-place edit")
+        g2 = [list(row) + ([v] if i == u else []) for i, row in enumerate(g)]
+        exp = spec_coreach(g2, f)
+        if "ok" not in r or dec(r["ok"]) != exp:
+            ctx.violation("after adding the transition %d -> %d in place to a list searched before, reverse_dfs returned %s; co-reachable "
+                          "non-final states are %s" % (u, v, dec(r["ok"]) if "ok" in r else r, exp), dict(tl=g2, finals=f, edited_in_place=[u, v]))
     # table
     tterms, tmeta = [], []
     for (g, f), r in zip(cases[:600], res[nc:nc + 600]):
